@@ -59,6 +59,10 @@ CHECKS = {
          "Kernel-checked for every subject, every ordered match list and every template: replaceMatchFunc's splicing equals untouched text / replacement / untouched text, replacing each match by itself returns the subject, $split's pieces interleaved with the matched texts rebuild the subject (piece count = matches + 1), a template without $ is copied, $0/$$/lone $ rules, $N inserts the group numbered by the longest digit prefix that exists and consumes exactly those digits (none: one digit is dropped), digit strings of any length cannot wrap around, applying a regex gives the first match object and its next member enumerates the rest and then no value. PARTIAL: that the matches are the leftmost non-overlapping RE2 matches and the meaning of the flags i/m/s is the contract of Go's regexp package (trusted); the model takes the engine's match list as data. "
          "Tied to /repo by generated patterns (classes, alternation, nested/optional/non-capturing groups, lazy and greedy quantifiers, anchors, flags) x subjects up to length 16 with multi-byte characters x templates x limits -1..4: Go's result is compared with the Lean model fed with the real engine's matches and with a direct oracle; invalid and empty patterns must be compile errors exactly when regexp.Compile rejects them; user-defined matcher functions with good and bad offsets.",
          "DESIGN.md section 6 C17", "regexp (RE2) is a parameter: FindAllStringSubmatchIndex is trusted to return leftmost, non-overlapping, in-bounds matches."),
+ "C18": ("Lean 4 theorems on exact decimals (integers): half-even rounding is nearest with ties to even, values with at most p fraction digits are fixed points, radix numerals read back for every base 2..36, grouping adds only separators (regular, irregular, fractional) and never before the first digit, the fixed-point numeral reads back as the rounded value with exactly dp fraction digits, exponent normalisation preserves mantissa x 10^exponent, picture digit-count inequalities; regenerated facts (number regex, decimal-format defaults and option names, Round/FormatNumber go through the exact decimal); + correspondence and math/big / strconv read-back oracles",
+         "Kernel-checked for all integers m, e, p, n and all digit strings: the rounding used by $round and $formatNumber returns an integer within half a unit, the even one on ties, and leaves exact values alone; $formatBase's numeral reads back as the integer for every base 2..36 and bases outside are errors; whatever the grouping positions, the formatted integer/fraction part is the padded digit string with separators added between digits; makeNumberString yields exactly dp fraction digits and at least one integer digit and reads back as the rounded value; exponent normalisation keeps mantissa x 10^exponent. PARTIAL: (1) the conversion double <-> shortest decimal (strconv) and the float operations floor/ceil/sqrt/pow are parameters (NumSys), validated by the correspondence; (2) termination of the exponent-normalisation loops for every value is not a theorem: the model runs them with fuel 800 and the real loops run under a wall-clock limit in the correspondence; (3) $number's grammar is a recogniser checked against an independent one, not proved equivalent to the regular expression. "
+         "Tied to /repo by the quantifier's doubles (integers, 0..6-digit fractions incl. exact ties, one-ulp neighbours of ties, powers of ten, -0, large integers) x precisions -6..12 x bases 0..40, exhaustive number-like strings up to length 3/4 and random ones to length 6, and grammar-generated pictures (digit patterns, regular/irregular/fractional grouping, percent, per-mille, exponent, affixes, two sub-pictures, custom separators and digit families) with mutated invalid ones: each compared with the Lean model and with math/big oracles (exact half-even rounding, numeral read back and compared with the exactly rounded value).",
+         "DESIGN.md section 6 C18", "math.Pow vs C pow: $power is compared with the model only for small integer bases and non-negative integer exponents (exact results); elsewhere only against Go's own math.Pow for the error/no-error decision."),
  "C05": ("Lean 4 world model (history independence, tree unchanged) + regenerated write-set obligations (every field/element write of the evaluator packages is on an accounted allow-list; per-call copy of built-ins; chain builds a fresh call) + history correspondence with AST deep comparison through the verif hook",
          "Kernel-checked: in the model an evaluation is a function of (tree, input): outcomes are independent of any history and the tree is unchanged. The tie to the source is (a) decide-checked obligations over the regenerated write set: every statement writing through a field, element or pointer in eval/callable/env/jsonata/jlib must be on the allow-list (none targets a syntax-tree node, the name/context setters run on a per-call copy made before them, the chain operator builds a new call node, each Eval makes a new environment), and (b) histories of 2..5 Evals on one Expr with other expressions in between, comparing every outcome with a freshly compiled Expr, String() and the parsed tree (verif accessor) before/after.",
          "DESIGN.md section 6 C05", "The write-set extractor is syntactic (go/ast): it lists assignments and inc/dec whose target is a selector, index or dereference; writes through reflect or method calls are covered by the mutator list of C07."),
